@@ -58,16 +58,20 @@ func dev(args []string) {
 	lemmas := fs.Bool("lemmas", true, "also check lemmas")
 	fs.Parse(args)
 	t0 := time.Now()
-	w, err := vc.Load(repoDir(), strings.Split(*pkgs, ","))
+	pats := strings.Split(*pkgs, ",")
+	pats = append(pats, globalRefPackages(contractFiles(repoDir()))...)
+	w, err := vc.Load(repoDir(), pats)
 	if err != nil {
 		fmt.Println("load:", err)
 		os.Exit(2)
 	}
 	fmt.Printf("loaded %d packages, %d functions in %.1fs\n", len(w.Pkgs), len(w.Funcs), time.Since(t0).Seconds())
 	cs := vc.NewContractSet()
-	if err := cs.LoadRepoContracts(w); err != nil {
-		fmt.Println("contracts:", err)
-		os.Exit(2)
+	for _, f := range contractFiles(repoDir()) {
+		if err := cs.LoadContractFile(f, pkgPathOfFile(repoDir(), f)); err != nil {
+			fmt.Println("contracts:", err)
+			os.Exit(2)
+		}
 	}
 	if err := cs.LoadLibContracts(verifDir() + "/lib"); err != nil {
 		fmt.Println("lib contracts:", err)
@@ -92,6 +96,9 @@ func dev(args []string) {
 			continue
 		}
 		if *fnpat != "" && !strings.Contains(n, *fnpat) {
+			continue
+		}
+		if !inPkgs(ct.Pkg, strings.Split(*pkgs, ",")) {
 			continue
 		}
 		r := ex.VerifyFunc(ct)
@@ -134,7 +141,16 @@ func dev(args []string) {
 	os.RemoveAll(dir)
 	res := ex.SolveAll(obls, dir, *timeout, 16, false)
 	bad := 0
+	coverOK := map[string]bool{}
 	for _, r := range res {
+		if r.Obl.Cover && r.Status == "sat" {
+			coverOK[groupOf(r.Obl.Name)] = true
+		}
+	}
+	for _, r := range res {
+		if r.Obl.Cover && coverOK[groupOf(r.Obl.Name)] {
+			continue
+		}
 		want := "unsat"
 		if r.Obl.Cover {
 			want = "sat"
@@ -162,4 +178,13 @@ func truncateLines(s string, n int) string {
 		ls = append(ls[:n], "...")
 	}
 	return strings.Join(ls, "\n")
+}
+
+func inPkgs(pkgPath string, pats []string) bool {
+	for _, p := range pats {
+		if vc.RepoModule+"/"+strings.TrimPrefix(p, "./") == pkgPath {
+			return true
+		}
+	}
+	return false
 }
